@@ -1,19 +1,14 @@
-(* The definitions of Kernels/Gen09.v -- regenerated on every run from /repo's current source by tools/py2v.py --
-   compose to the quantiser kernel of Model/Quant.v that the C09 theorems speak about. *)
+(* The definition of Kernels/Gen09.v -- regenerated on every run from /repo's current source by tools/py2v.py: the return
+   value of quantize_real with its locals (scale factor with the zero-deviation branch, rounding, clip bounds) inlined --
+   is the quantiser kernel of Model/Quant.v that the C09 theorems speak about. *)
 From Coq Require Import List ZArith QArith Qround Lia Lqa Bool.
 From SV Require Import Base.Rounding Kernels.Gen09 Model.Quant.
 Local Open Scope Q_scope.
 
-(* non-degenerate statistics (the else branch); a zero deviation takes the branch `factor = 0`, which is the model's [factor ts 0 = 0] *)
-Theorem k09_quantize b tm ts dm ds x : ~ ds == 0 ->
-  src_quant_clip (src_quant_round (src_quant_factor ts ds) x dm tm) b = quantize_real b tm ts dm ds x.
+Theorem k09_quantize b tm ts dm ds x : src_quantize_real x tm ts dm ds b = quantize_real b tm ts dm ds x.
 Proof.
-  intros H. unfold src_quant_clip, src_quant_round, src_quant_factor, quantize_real, clipZ, qlo, qhi, affine, factor.
-  destruct (Qeq_bool ds 0) eqn:E; [apply Qeq_bool_iff in E; contradiction|].
-  first [reflexivity | (f_equal; [f_equal; apply rhe_proper; first [reflexivity | ring | (field; auto)] | ])]; reflexivity.
-Qed.
-Theorem k09_zero_deviation b tm ts dm x : quantize_real b tm ts dm 0 x = src_quant_clip (src_quant_round 0 x dm tm) b.
-Proof.
-  unfold src_quant_clip, src_quant_round, quantize_real, clipZ, qlo, qhi, affine, factor. cbn [Qeq_bool].
-  first [reflexivity | (f_equal; [f_equal; apply rhe_proper; first [reflexivity | ring] | ])]; reflexivity.
+  unfold src_quantize_real, quantize_real, clipZ, qlo, qhi, affine, factor.
+  first [reflexivity
+        | (change (inject_Z 0) with 0; destruct (Qeq_bool ds 0);
+           (f_equal; [f_equal; apply rhe_proper; first [reflexivity | ring | (field; auto)] | ]); reflexivity)].
 Qed.
